@@ -1,19 +1,25 @@
 #!/bin/bash
 # Development tool: run checks against a MUTATED copy of the crate without touching /repo.
-#   lib/try_mutant.sh <patch.diff> <ID> [<ID> ...]
-# Uses a scratch worktree of /repo HEAD (/tmp/mutwt) and a copy of the harness (/tmp/mh) whose
-# hyperdriver dependency points at the worktree. Evidence/out go to /tmp/mh-out, /tmp/mh-evid.
+#   [MUT_TAG=a] [TIER=quick] lib/try_mutant.sh <patch.diff> <ID> [<ID> ...]
+# Uses a scratch worktree of /repo HEAD (/tmp/mutwt-$TAG) and a copy of this tree's harness (/tmp/mh-$TAG)
+# whose hyperdriver dependency points at the worktree. Evidence / out go to /tmp/mh-$TAG-evid, /tmp/mh-$TAG-out,
+# so the registered evidence files are not touched. Works from a `vp run` snapshot of /verif too.
 set -u
+ROOT=$(cd "$(dirname "$0")/.." && pwd)
+TAG=${MUT_TAG:-a}
+WT=/tmp/mutwt-$TAG
+MH=/tmp/mh-$TAG
 PATCH=$(readlink -f "$1"); shift
-if [ ! -d /tmp/mutwt ]; then git -C /repo worktree add -q --detach /tmp/mutwt HEAD || exit 2; fi
-git -C /tmp/mutwt checkout -q --detach $(git -C /repo rev-parse HEAD) && git -C /tmp/mutwt reset -q --hard && git -C /tmp/mutwt clean -qfd -e target
-git -C /tmp/mutwt apply "$PATCH" || { echo "patch does not apply"; exit 2; }
-mkdir -p /tmp/mh /tmp/mh-out /tmp/mh-evid
-rsync -a --delete --exclude target --exclude target-da /verif/harness/ /tmp/mh/
-sed -i 's#path = "/repo"#path = "/tmp/mutwt"#' /tmp/mh/Cargo.toml
+if [ ! -d "$WT" ]; then git -C /repo worktree add -q --detach "$WT" HEAD || exit 2; fi
+git -C "$WT" checkout -q --detach "$(git -C /repo rev-parse HEAD)" && git -C "$WT" reset -q --hard && git -C "$WT" clean -qfd -e target
+git -C "$WT" apply "$PATCH" || { echo "patch does not apply"; exit 2; }
+mkdir -p "$MH" "$MH-out" "$MH-evid"
+rsync -a --delete --exclude target --exclude target-da "$ROOT/harness/" "$MH/"
+sed -i "s#path = \"/repo\"#path = \"$WT\"#" "$MH/Cargo.toml"
 for ID in "$@"; do
-  VERIF_HARNESS_DIR=/tmp/mh VERIF_OUT_DIR=/tmp/mh-out VERIF_EVID_DIR=/tmp/mh-evid /verif/check $ID --tier ${TIER:-quick} > /tmp/mh-out/$ID.log 2>&1
+  VERIF_HARNESS_DIR=$MH VERIF_OUT_DIR=$MH-out VERIF_EVID_DIR=$MH-evid "$ROOT/check" "$ID" --tier "${TIER:-quick}" > "$MH-out/$ID.log" 2>&1
   rc=$?
-  echo "$ID exit=$rc $(grep -c '^VIOLATION' /tmp/mh-out/$ID.log) violation lines; keys: $(grep -A1 '^VIOLATION' /tmp/mh-out/$ID.log | grep -v '^VIOLATION\|^--' | sed 's/^ *//' | cut -d: -f1-2 | sort | uniq -c | tr '\n' ';' | cut -c1-300)"
+  keys=$(grep -A1 '^VIOLATION' "$MH-out/$ID.log" | grep -v '^VIOLATION\|^--' | sed 's/^ *//' | cut -c1-90 | sort | uniq -c | tr '\n' ';' | cut -c1-400)
+  echo "$ID exit=$rc violations=$(grep -c '^VIOLATION' "$MH-out/$ID.log") keys: $keys"
 done
-git -C /tmp/mutwt reset -q --hard
+git -C "$WT" reset -q --hard
